@@ -237,14 +237,8 @@ class Mirror:
         sp, g = self.sp, self.g
         if k in ("NewSpace", "AddBases") and code == NAMECONFLICT:
             t.append("D13")
-        if k in ("RemoveBases", "DelSpace") and code == NOMRO:
-            t.append("D34")
-        if k in ("NewCells",) and s in sp:
-            n = op[2]
-            ds = [d for d in self.subs(s) if d != s and (n in sp[d]["cells"] or n in sp[d]["refs"])]
-            kinds = {("c" if n in sp[d]["cells"] else "r") for d in ds}
-            if len(kinds) == 2:
-                t.append("D13")       # mixed: the code looks at the first sub only
+        # D34 (remove_bases / del of a space leaving a descendant without MRO), D3 (re-derivation order) and the
+        # first-sub-only name test (N3) are repaired in /repo: their former triggers are generated
         if k == "NewRef" and s in sp and op[2] in sp[s]["cells"]:
             t.append("setattr-on-cells")     # `S.n = v` assigns the value of a scalar cells: not this operation
         if code != ACCEPTED:
@@ -253,8 +247,6 @@ class Mirror:
         # D1 (NewCells in an earlier base of a sub space that derives the name from a later base) is repaired in /repo
         # D2 / D2b (SetFormula reaching cells derived from another definer) and D33 (ChangeRef stopping at the first
         # overriding sub space) are repaired in /repo: their former triggers are generated
-        if k in ("RemoveBases", "DelSpace") and self._d3(op, g2):
-            t.append("D3")
         return t
 
     def _d3(self, op, g2):
